@@ -4,7 +4,6 @@ import (
 	"context"
 	"encoding/binary"
 	"fmt"
-	"os"
 	"runtime"
 	"strings"
 
@@ -17,10 +16,6 @@ import (
 )
 
 func init() { register("C06", runC06) }
-
-// c06ProtoOn: the Protobuf side is being triaged (it found a dozen defects at once); until every one of them
-// is repaired in /repo or listed in known-findings.json it runs only when VERIF_C06_PROTO is set.
-var c06ProtoOn = os.Getenv("VERIF_C06_PROTO") != ""
 
 // mark is a structural position of a reference-encoded message.
 type mark struct {
@@ -297,7 +292,7 @@ func runC06(w *W) {
 	t := w.T
 	resetKnobs()
 	conv.DefaultBufferSize = 4096
-	if t.Chance(1, 3, "c06.proto") && c06ProtoOn {
+	if t.Chance(1, 3, "c06.proto") {
 		runC06Proto(w) // Protobuf messages and the Protobuf entry points: prop_c06p.go
 		return
 	}
